@@ -18,6 +18,7 @@ FORBIDDEN = [
     r'\bAdmitted\b', r'\badmit\b', r'Admit Obligations', r'\bgive_up\b',
     r'Unset\s+Guard\s+Checking', r'bypass_check', r'type-in-type', r'impredicative-set',
     r'Unset\s+Positivity', r'Unset\s+Universe\s+Checking', r'\bnative_compute\b',
+    r'Extract\s+(?:Inlined\s+)?Constant', r'Extract\s+Inductive',     # extraction: ExtrOcamlBasic only
 ]
 
 
@@ -119,7 +120,7 @@ def write_if_changed(path, content):
 
 # generated modules per translator (a translator not listed here counts for every property)
 T_OUT = {'t_arena': ['Gen_Arena'], 't_arith': ['Gen_Arith'], 't_conf': ['Gen_Conf'], 't_exec': ['Gen_Exec'], 't_html': ['Gen_Html'],
-         't_interp': ['Gen_Interp'], 't_interpsrc': ['Gen_InterpSrc'], 't_kill': ['Gen_Kill'], 't_ksconst': ['Gen_KsConst'],
+         't_interp': ['Gen_Interp'], 't_interpsrc': ['Gen_InterpSrc'], 't_kill': ['Gen_Kill', 'Gen_KillTable'], 't_ksconst': ['Gen_KsConst'],
          't_lexer': ['Gen_Lexer'], 't_lock': ['Gen_Lock'], 't_orch': ['Gen_Orch'], 't_regresslog': ['Gen_RegressLog'],
          't_report': ['Gen_Report'], 't_shell': ['Gen_Shell'], 't_step': ['Gen_Step', 'Gen_StepIO'], 't_util': ['Gen_Util']}
 
@@ -331,9 +332,14 @@ class Ctx:
                 sh(['timeout', '1500', 'make', '-k', '-j16'], cwd=COQ)
             with Lock(os.path.join(VERIF, 'driver', '.lock')):
                 r = sh([os.path.join(VERIF, 'bin', 'build-driver'), name] + (['z'] if withz else []))
+            built = os.path.join(VERIF, 'driver', 'build', name, name + '_driver')
+            if r.returncode == 0:
+                # this run uses its own copy: a concurrent check on another repository relinks the shared one
+                mine = os.path.join(self.mkscratch('drv'), name + '_driver')
+                shutil.copy2(built, mine)
         if r.returncode != 0:
             raise BuildFailure('driver %s does not build:\n%s' % (name, r.stdout[-2000:]))
-        return os.path.join(VERIF, 'driver', 'build', name, name + '_driver')
+        return mine
 
     def wall(self):
         return round(time.time() - self.t0, 2)
@@ -469,6 +475,19 @@ def finish(ctx, proof, audit, res, regen_errors, level='proof', extra_assumption
         broken.append('tie: ' + e)
     if res.disagreements:
         broken.append('correspondence: model and implementation differ on %d case(s)' % len(res.disagreements))
+    try:
+        import theorem_index
+        committed = json.load(open(os.path.join(VERIF, 'THEOREMS.json')))['properties'].get(pid, [])
+        now = {e['name']: e for e in theorem_index.current({pid}).get(pid, [])}
+        for e in committed:
+            f = now.get(e['name'])
+            if f is None:
+                broken.append('theorem index: %s %s of Properties_%s.v is gone (THEOREMS.json lists it; harness/theorem_index.py write after a deliberate change)' % (e['kind'], e['name'], pid))
+            elif f['statement_sha256'] != e['statement_sha256'] or f['kind'] != e['kind'] or (e.get('print_assumptions') and not f['print_assumptions']) \
+                    or (e.get('closed_by_exact') and not f['closed_by_exact']):
+                broken.append('theorem index: %s of Properties_%s.v differs from the committed statement/kind/closing (THEOREMS.json)' % (e['name'], pid))
+    except Exception as e:   # a missing or unreadable index is itself reported
+        broken.append('theorem index: cannot be compared (%s)' % str(e)[:200])
     if not res.tie_errors and (res.evaluations < 1 or len(res.nontrivial) < 2):
         # a run that compared (almost) nothing is not evidence: the tie to the code was not exercised
         broken.append('tie: the correspondence covered %d case(s), %d of them distinct and non-trivial - too few to count as a check'
